@@ -248,21 +248,42 @@ func c31PrimOnce(in c31Input) c31PrimObs {
 func c31RunPrim(w *vWriter, in c31Input) {
 	interval := time.Duration(in.IntervalMs) * time.Millisecond
 	timeout := time.Duration(in.TimeoutMs) * time.Millisecond
+	// Scheduling noise can only delay a poll (and thereby, rarely, change the outcome); it is not
+	// reproducible, whereas the code's behaviour is.  So every grid point is run until two runs
+	// agree (same result, return times within a quarter interval), runs with a noisy canary or a
+	// late holder do not count, and the earlier of the agreeing runs is the observation.  None of
+	// this looks at the expected outcome.
+	var runs []c31PrimObs
 	var obs c31PrimObs
-	quiet, canaryQuiet := false, false
-	for attempt := 0; attempt < 4 && !quiet; attempt++ {
-		obs = c31PrimOnce(in)
+	agreed := false
+	var lastNoise time.Duration
+	for attempt := 0; attempt < 6 && !agreed; attempt++ {
+		o := c31PrimOnce(in)
+		lastNoise = o.noise
 		rel := time.Duration(in.ReleaseMs) * time.Millisecond
-		lateRelease := in.ReleaseMs >= 0 && obs.acquired && obs.releasedAt-rel > interval/5
-		canaryQuiet = obs.noise <= interval/5 && !lateRelease
-		// the call returns right after a poll, and polls are due at multiples of the interval: a
-		// return far from every multiple means this run's sleeps were stretched (whatever the outcome)
-		onGrid := obs.elapsed%interval <= interval/4
-		quiet = canaryQuiet && onGrid
+		lateRelease := in.ReleaseMs >= 0 && o.acquired && o.releasedAt-rel > interval/5
+		if o.noise > interval/5 || lateRelease {
+			continue
+		}
+		for _, q := range runs {
+			d := o.elapsed - q.elapsed
+			if d < 0 {
+				d = -d
+			}
+			if q.acquired == o.acquired && d <= interval/4 {
+				agreed = true
+				obs = q
+				if o.elapsed < q.elapsed {
+					obs = o
+				}
+				break
+			}
+		}
+		runs = append(runs, o)
 	}
 	key := fmt.Sprintf("prim:%d:%d:%d", in.TimeoutMs, in.IntervalMs, in.ReleaseMs)
-	if !canaryQuiet { // (off-grid four times in a row with a quiet canary is reported as observed)
-		w.Emit(VCase{Input: in, Key: key, Inconcl: fmt.Sprintf("scheduling noise %s exceeds a fifth of the %s interval in 4 attempts", obs.noise, interval), Tags: []string{"prim-noisy"}})
+	if !agreed {
+		w.Emit(VCase{Input: in, Key: key, Inconcl: fmt.Sprintf("no two of 6 runs agree (%d quiet runs, last canary noise %s, interval %s)", len(runs), lastNoise, interval), Tags: []string{"prim-noisy"}})
 		return
 	}
 	release := uint64(0)
@@ -662,6 +683,36 @@ func TestVerif_C31(t *testing.T) {
 		return
 	}
 	var wg sync.WaitGroup
+	// (a) grid: timeouts and releases at half-interval offsets (never on a poll instant)
+	intervals := []int{150, 200}
+	timeouts := []int{1, 3, 5} // in half intervals
+	reps := 1
+	if vTier() == "thorough" {
+		intervals = []int{120, 150, 200, 250, 400}
+		timeouts = []int{1, 3, 5, 7}
+		reps = 4
+	}
+	sem := make(chan struct{}, 8)
+	for rep := 0; rep < reps; rep++ {
+		for _, iv := range intervals {
+			for _, th := range timeouts { // timeout = th/2 intervals
+				for _, rh := range []int{-1, -2, 1, 3, 5, 7, 9, 11} { // release = rh/2 intervals
+					in := c31Input{Kind: "prim", TimeoutMs: th * iv / 2, IntervalMs: iv, ReleaseMs: rh}
+					if rh > 0 {
+						in.ReleaseMs = rh * iv / 2
+					}
+					wg.Add(1)
+					sem <- struct{}{}
+					go func() {
+						defer wg.Done()
+						defer func() { <-sem }()
+						c31RunPrim(w, in)
+					}()
+				}
+			}
+		}
+	}
+	wg.Wait() // the timing grid runs alone: the stores below keep the scheduler busy
 	// (b) every Close scenario on its own store, concurrently with the grid:
 	// {snapshot-on-close on/off} x {nothing / a write applied since the last snapshot} x
 	// {raw gate owner, real backup into a slow client} x hold times
@@ -701,32 +752,5 @@ func TestVerif_C31(t *testing.T) {
 		defer wg.Done()
 		c31RunGate(t, w, c31Input{Kind: "gate"})
 	}()
-	// (a) grid: timeouts and releases at half-interval offsets (never on a poll instant)
-	intervals := []int{150, 250}
-	reps := 1
-	if vTier() == "thorough" {
-		intervals = []int{120, 150, 200, 250, 400}
-		reps = 4
-	}
-	sem := make(chan struct{}, 8)
-	for rep := 0; rep < reps; rep++ {
-		for _, iv := range intervals {
-			for _, th := range []int{1, 3, 5, 7} { // timeout = th/2 intervals
-				for _, rh := range []int{-1, -2, 1, 3, 5, 7, 9, 11} { // release = rh/2 intervals
-					in := c31Input{Kind: "prim", TimeoutMs: th * iv / 2, IntervalMs: iv, ReleaseMs: rh}
-					if rh > 0 {
-						in.ReleaseMs = rh * iv / 2
-					}
-					wg.Add(1)
-					sem <- struct{}{}
-					go func() {
-						defer wg.Done()
-						defer func() { <-sem }()
-						c31RunPrim(w, in)
-					}()
-				}
-			}
-		}
-	}
 	wg.Wait()
 }
